@@ -12,17 +12,50 @@ Import ListNotations.
 Local Open Scope Z_scope.
 
 (* ---- data ---------------------------------------------------------------------------- *)
-Definition str := list N.                 (* a cell: Unicode code points *)
-Definition row := list str.
-Definition batch := list row.             (* the rows of one mini-batch (= one DataFrame) *)
-
+Definition str := list N.                 (* Unicode code points *)
 Definition str_eq_dec : forall a b : str, {a = b} + {a <> b} := list_eq_dec N.eq_dec.
-Definition key := (nat * str)%type.       (* (column index, value) *)
-Definition key_eq_dec : forall a b : key, {a = b} + {a <> b}.
-Proof. decide equality. apply str_eq_dec. apply Nat.eq_dec. Defined.
 
-(* input_dataframe[column].values of a frame built from row lists *)
-Definition column (j : nat) (b : list row) : list str := map (fun r => nth j r []) b.
+(* What the statistics functions see in a cell of the DataFrame of one mini-batch: a Python str, or — for
+   a cell the parser left as None (ob-vw: absent namespace) — the missing marker pandas puts there:
+   float nan when the column of that batch also holds strings (StringDtype), the None object itself when
+   every cell of that column of the batch is None (object dtype).  nan and None are two different
+   dictionary keys, both different from every string; nan is truthy and str(nan) = 'nan', None is falsy. *)
+Inductive val := V (s : str) | NaN | PyNone.
+Definition val_eq_dec : forall a b : val, {a = b} + {a <> b}.
+Proof. decide equality. apply str_eq_dec. Defined.
+
+Definition row := list val.
+Definition batch := list row.             (* the rows of one mini-batch as the DataFrame holds them *)
+
+Definition key := (nat * val)%type.       (* (column index, value) *)
+Definition key_eq_dec : forall a b : key, {a = b} + {a <> b}.
+Proof. decide equality. apply val_eq_dec. apply Nat.eq_dec. Defined.
+
+(* input_dataframe[column].values *)
+Definition column (j : nat) (b : list row) : list val := map (fun r => nth j r PyNone) b.
+
+(* the parsers' rows: None = absent; and the frame pandas builds from one batch of them *)
+Definition cell := option str.
+Definition rrow := list cell.
+Definition is_none (c : cell) : bool := match c with None => true | Some _ => false end.
+Definition allnone (j : nat) (b : list rrow) : bool := forallb (fun r => is_none (nth j r None)) b.
+Definition frame_cell (b : list rrow) (jc : nat * cell) : val :=
+  match snd jc with
+  | Some s => V s
+  | None => if allnone (fst jc) b then PyNone else NaN
+  end.
+Definition frame_batch (b : list rrow) : batch :=
+  map (fun r => map (frame_cell b) (combine (seq 0 (length r)) r)) b.
+(* rows without None cells: every cell is its string *)
+Definition lift_cell (c : cell) : val := match c with Some s => V s | None => NaN end.
+Definition lift (rows : list rrow) : list row := map (map lift_cell) rows.
+Definition none_free (rows : list rrow) : bool := forallb (forallb (fun c => negb (is_none c))) rows.
+
+(* `if unique_value:` and str(unique_value) *)
+Definition truthy (v : val) : bool :=
+  match v with V [] => false | V _ => true | NaN => true | PyNone => false end.
+Definition str_of (v : val) : str :=
+  match v with V s => s | NaN => [110; 97; 110]%N | PyNone => [78; 111; 110; 101]%N end.
 
 (* ---- association lists with Z counts (collections.Counter, insertion order kept) ------ *)
 Section Assoc.
@@ -66,12 +99,10 @@ Arguments dedup {A} eq_dec l.
 (* HyperLogLogWCache.add before the conversion: a set of at most [cap] hash values; an add of
    a new value when the set is full converts the sketch (state [Cold]) — C13 claims nothing
    from then on (that is C14). *)
-Definition nonempty (v : str) : bool := match v with [] => false | _ => true end.
-
 Inductive sketch := Warm (s : list N) | Cold.
 
 Section Card.
-  Variable hash : str -> N.               (* internal_hash(str(v)): oracle, any function *)
+  Variable hash : val -> N.               (* v |-> internal_hash(str(v)): oracle, any function *)
   Variable cap : Z.                       (* warmup_size (2^18 in the code) *)
 
   Definition sk_add (sk : sketch) (x : N) : sketch :=
@@ -85,8 +116,8 @@ Section Card.
     match sk with Warm s => Some (length s) | Cold => None end.
 
   (* what one batch inserts for one column: the hashes of the SET of its truthy values *)
-  Definition batch_ins (col : list str) : list N :=
-    map hash (filter nonempty (dedup str_eq_dec col)).
+  Definition batch_ins (col : list val) : list N :=
+    map hash (filter truthy (dedup val_eq_dec col)).
 
   (* any insertion lists, one per batch *)
   Definition sk_run (inss : list (list N)) : sketch :=
@@ -96,36 +127,36 @@ Section Card.
     sk_len (sk_run (map (fun b => batch_ins (column j b)) bs)).
 
   (* the specification: a function of the whole column *)
-  Definition card_spec (col : list str) : option nat :=
-    let d := length (dedup N.eq_dec (map hash (filter nonempty col))) in
+  Definition card_spec (col : list val) : option nat :=
+    let d := length (dedup N.eq_dec (map hash (filter truthy col))) in
     if Z.of_nat d <=? cap then Some d else None.
 
   (* hash-free exact count *)
-  Definition distinct_nonempty (col : list str) : nat :=
-    length (dedup str_eq_dec (filter nonempty col)).
+  Definition distinct_truthy (col : list val) : nat :=
+    length (dedup val_eq_dec (filter truthy col)).
 End Card.
 
 (* ---- (ii) the bounded exact counter ---------------------------------------------------- *)
 (* PrimitiveConstrainedCounter.add: counted only while fewer than [bound] keys are stored —
    once the key count reaches the bound EVERY add is dropped, also for stored keys. *)
-Definition bc_add (bound : Z) (c : al str) (v : str) : al str :=
-  if Z.of_nat (length c) <? bound then incr str_eq_dec c v else c.
+Definition bc_add (bound : Z) (c : al val) (v : val) : al val :=
+  if Z.of_nat (length c) <? bound then incr val_eq_dec c v else c.
 
-Definition bc_run (bound : Z) (cols : list (list str)) : al str :=
+Definition bc_run (bound : Z) (cols : list (list val)) : al val :=
   fold_left (fun c col => fold_left (bc_add bound) col c) cols [].
 
-Definition counter (bound : Z) (j : nat) (bs : list batch) : al str :=
+Definition counter (bound : Z) (j : nat) (bs : list batch) : al val :=
   bc_run bound (map (column j) bs).
 
 (* value_repetitions.json: for each edge x the number of stored values with count > x *)
-Definition hist_of (edges : list Z) (c : al str) : list Z :=
-  map (fun x => Z.of_nat (length (filter (fun kc : str * Z => x <? snd kc) c))) edges.
+Definition hist_of (edges : list Z) (c : al val) : list Z :=
+  map (fun x => Z.of_nat (length (filter (fun kc : val * Z => x <? snd kc) c))) edges.
 
 Definition hist (edges : list Z) (bound : Z) (j : nat) (bs : list batch) : list Z :=
   hist_of edges (counter bound j bs).
 
-Definition hist_spec (edges : list Z) (col : list str) : list Z :=
-  let vals := map (fun v => cnt str_eq_dec col v) (dedup str_eq_dec col) in
+Definition hist_spec (edges : list Z) (col : list val) : list Z :=
+  let vals := map (fun v => cnt val_eq_dec col v) (dedup val_eq_dec col) in
   map (fun x => Z.of_nat (length (filter (fun c => x <? c) vals))) edges.
 
 Definition default_edges : list Z := [0; 1; 10; 100; 1000; 10000; 100000].
@@ -164,7 +195,7 @@ Definition rare_old (thr : Z) (ncols : nat) (bs : list batch) : al key :=
 
 (* specification: the total number of cells of column j holding v over all consumed rows *)
 Definition total (ncols : nat) (rows : list row) (k : key) : Z :=
-  if (fst k <? ncols)%nat then cnt str_eq_dec (column (fst k) rows) (snd k) else 0.
+  if (fst k <? ncols)%nat then cnt val_eq_dec (column (fst k) rows) (snd k) else 0.
 
 (* executable checker for a reported table (any order) against the specification *)
 Fixpoint nodup_keysb (l : list key) : bool :=
@@ -194,10 +225,10 @@ Fixpoint split_on (c : N) (s : str) : list str :=
 Definition sum_Z (l : list Z) : Z := fold_right Z.add 0 l.
 
 (* sum over the SET of symbols of list.count(symbol) *)
-Definition miss_count (syms : list str) (col : list str) : Z :=
-  sum_Z (map (cnt str_eq_dec col) (dedup str_eq_dec syms)).
+Definition miss_count (syms : list str) (col : list val) : Z :=
+  sum_Z (map (fun x => cnt val_eq_dec col (V x)) (dedup str_eq_dec syms)).
 
-Definition cov_batch (syms : list str) (col : list str) : Q :=
+Definition cov_batch (syms : list str) (col : list val) : Q :=
   ((1 - inject_Z (miss_count syms col) / inject_Z (Z.of_nat (length col))) * 100)%Q.
 
 Definition coverages (syms : list str) (j : nat) (bs : list batch) : list Q :=
@@ -221,55 +252,63 @@ Definition cov_annot (covs : list Q) : Z := Z.quot (round_half_even (qmean covs 
 
 (* ---- whole histories --------------------------------------------------------------------- *)
 (* cut a row table into consecutive batches of the given sizes *)
-Fixpoint cut (sizes : list nat) (rows : list row) : list batch :=
+Fixpoint cut {A} (sizes : list nat) (rows : list A) : list (list A) :=
   match sizes with
   | [] => []
   | n :: r => firstn n rows :: cut r (skipn n rows)
   end.
+
+(* the frames of a history of parsed batches *)
+Definition frames (bs : list (list rrow)) : list batch := map frame_batch bs.
 
 Fixpoint lookup_hash (tab : list (str * N)) (v : str) : N :=
   match tab with
   | [] => 0%N
   | (k, h) :: r => if str_eq_dec v k then h else lookup_hash r v
   end.
+(* the sketch receives internal_hash(str(v)) *)
+Definition hash_val (tab : list (str * N)) (v : val) : N := lookup_hash tab (str_of v).
 
 Record C13_case := mkCase {
   c_ncols : nat;
-  c_rows : list row;
+  c_rows : list rrow;              (* parsed rows; None = absent *)
   c_thr : Z;                       (* args.rare_value_count_upper_bound *)
   c_bound : Z;                     (* args.max_unique_hist_constraint *)
   c_cap : Z;                       (* warmup_size of the sketches *)
   c_syms : str;                    (* args.missing_value_symbols *)
   c_edges : list Z;                (* bucket edges of value_repetitions.json *)
-  c_hash : list (str * N)          (* internal_hash tabulated on the values of the table *)
+  c_hash : list (str * N)          (* internal_hash tabulated on the strings of the table (and 'nan') *)
 }.
 
 (* per column: cardinality, histogram, per-batch coverages, mean, annotation;  and the rare table *)
 (* rationals are printed as (numerator, denominator) *)
 Definition qpair (q : Q) : Z * Z := (Qnum q, Zpos (Qden q)).
 Definition col_obs := (option nat * list Z * list (Z * Z) * (Z * Z) * Z)%type.
-Definition C13_obs := (list col_obs * al key)%type.
+(* values are printed as (tag, string): 0 = str, 1 = nan, 2 = None *)
+Definition val_enc (v : val) : Z * str := match v with V s => (0, s) | NaN => (1, []) | PyNone => (2, []) end.
+Definition C13_obs := (list col_obs * list (nat * (Z * str) * Z))%type.
 
 Definition C13_model (c : C13_case) (sizes : list nat) : C13_obs :=
-  let bs := cut sizes (c_rows c) in
+  let bs := frames (cut sizes (c_rows c)) in
   let syms := split_on 44 (c_syms c) in
   (map (fun j =>
           let covs := coverages syms j bs in
-          (card (lookup_hash (c_hash c)) (c_cap c) j bs,
+          (card (hash_val (c_hash c)) (c_cap c) j bs,
            hist (c_edges c) (c_bound c) j bs,
            map qpair covs, qpair (qmean covs), cov_annot covs))
        (seq 0%nat (c_ncols c)),
-   rare (c_thr c) (c_ncols c) bs).
+   map (fun kc : key * Z => (fst (fst kc), val_enc (snd (fst kc)), snd kc)) (rare (c_thr c) (c_ncols c) bs)).
 
-(* the specification side, a function of the table alone: what any implementation history over
-   any composition must report.  card: None = more than cap distinct hashes (no claim);
-   hist: None = distinct >= bound (no claim). *)
+(* the specification side, a function of the table alone (claimed for None-free tables/columns: there
+   [lift] is the frame content whatever the split): what any implementation history over any composition
+   must report.  card: None = more than cap distinct hashes (no claim); hist: None = distinct >= bound
+   (no claim). *)
 Definition C13_spec (c : C13_case) : list (option nat * nat * option (list Z)) :=
   map (fun j =>
-         let col := column j (c_rows c) in
-         (card_spec (lookup_hash (c_hash c)) (c_cap c) col,
-          distinct_nonempty col,
-          if Z.of_nat (length (dedup str_eq_dec col)) <? c_bound c then Some (hist_spec (c_edges c) col) else None))
+         let col := column j (lift (c_rows c)) in
+         (card_spec (hash_val (c_hash c)) (c_cap c) col,
+          distinct_truthy col,
+          if Z.of_nat (length (dedup val_eq_dec col)) <? c_bound c then Some (hist_spec (c_edges c) col) else None))
       (seq 0%nat (c_ncols c)).
 
 (* verdicts on what an implementation run reported (card per column, histogram per column, rare table) *)
@@ -280,10 +319,11 @@ Definition zlist_eqb (a b : list Z) : bool :=
 
 Definition C13_check (c : C13_case) (o : list nat * list (list Z) * al key) : list bool * list bool * bool :=
   let '(cards, hists, rep) := o in
-  (map (fun jc : nat * nat => optnat_eqb (card_spec (lookup_hash (c_hash c)) (c_cap c) (column (fst jc) (c_rows c))) (snd jc))
+  let rows := lift (c_rows c) in
+  (map (fun jc : nat * nat => optnat_eqb (card_spec (hash_val (c_hash c)) (c_cap c) (column (fst jc) rows)) (snd jc))
        (combine (seq 0%nat (c_ncols c)) cards),
    map (fun jh : nat * list Z =>
-          let col := column (fst jh) (c_rows c) in
-          negb (Z.of_nat (length (dedup str_eq_dec col)) <? c_bound c) || zlist_eqb (hist_spec (c_edges c) col) (snd jh))
+          let col := column (fst jh) rows in
+          negb (Z.of_nat (length (dedup val_eq_dec col)) <? c_bound c) || zlist_eqb (hist_spec (c_edges c) col) (snd jh))
        (combine (seq 0%nat (c_ncols c)) hists),
-   rare_checkb (c_thr c) (c_ncols c) (c_rows c) rep).
+   rare_checkb (c_thr c) (c_ncols c) rows rep).
